@@ -62,6 +62,15 @@ func (p *Prog) ipaths(f *ssa.Function) ([]ipath, bool) {
 	return p.ipathsD(f, 0, map[*ssa.Function]bool{})
 }
 
+// ipathsHavoc is ipathsKeeping where the phis of loop headers entered from outside the loop stay
+// symbolic ("phi:<variable>"): a path that runs a loop body once stands for an arbitrary iteration,
+// so a statement true of all such paths is an inductive step.
+func (p *Prog) ipathsHavoc(f *ssa.Function, keep map[*ssa.Function]bool) ([]ipath, bool) {
+	p.havoc = true
+	defer func() { p.havoc = false }()
+	return p.ipathsKeeping(f, keep)
+}
+
 // ipathsKeeping is ipaths with the given callees kept as opaque events (not inlined).
 func (p *Prog) ipathsKeeping(f *ssa.Function, keep map[*ssa.Function]bool) ([]ipath, bool) {
 	saved := p.ipathCache
@@ -106,8 +115,8 @@ func (p *Prog) ipathsD(f *ssa.Function, depth int, stack map[*ssa.Function]bool)
 		// facts of this path in f's terms
 		factRels := []string{}
 		for _, fc := range cp.Facts {
-			cond := resolveOnPath(cp, fc.Cond)
-			if s, ok := relOf(fact{cond, fc.Val}); ok {
+			cond := resolveOnPathAt(cp, fc.Cond, fc.At, p.havoc)
+			if s, ok := relOf(fact{Cond: cond, Val: fc.Val}); ok {
 				factRels = append(factRels, s)
 			}
 		}
@@ -212,7 +221,7 @@ func (p *Prog) ipathsD(f *ssa.Function, depth int, stack map[*ssa.Function]bool)
 							cur[i].Exit = "return"
 							cur[i].RetIn = x
 							for _, rv := range x.Results {
-								cur[i].Ret = append(cur[i].Ret, sk(resolveOnPath(cp, rv)))
+								cur[i].Ret = append(cur[i].Ret, sk(resolveOnPathAt(cp, rv, len(cp.Blocks)-1, p.havoc)))
 							}
 						}
 					}
@@ -303,6 +312,18 @@ func mkEvent(cc *ssa.CallCommon, v ssa.Value, in ssa.Instruction, f *ssa.Functio
 // infeasible: the relations contain a contradiction that is visible syntactically.
 func infeasible(rs relSet) bool {
 	for k := range rs {
+		// X == true together with X == false (in either orientation)
+		for _, tv := range [][2]string{{"true", "false"}, {"false", "true"}} {
+			x := ""
+			if strings.HasSuffix(k, " == "+tv[0]) {
+				x = strings.TrimSuffix(k, " == "+tv[0])
+			} else if strings.HasPrefix(k, tv[0]+" == ") {
+				x = strings.TrimPrefix(k, tv[0]+" == ")
+			}
+			if x != "" && x != "true" && x != "false" && (rs[x+" == "+tv[1]] || rs[tv[1]+" == "+x]) {
+				return true
+			}
+		}
 		if i := topLevelIndex(k, " != "); i >= 0 {
 			a, b := k[:i], k[i+4:]
 			if a == b {
